@@ -23,5 +23,8 @@ PROPS = {
     "C10": {"level": "fault_enumeration", "parts": [
         part("real", "stack", "TestVerifC10"),
         part("small", "stack", "TestVerifC10", variant="smallbuf-64")]},
+    "C11": {"level": "exploration", "parts": [
+        part("real", "stack", "TestVerifC11"),
+        part("small", "stack", "TestVerifC11", variant="smallbuf-64")]},
     "C12": {"level": "exploration", "parts": [part("agg", "stack", "TestVerifC12")]},
 }
